@@ -1,2 +1,75 @@
-use crate::ops::Op;
-pub fn register(_ops: &mut Vec<Op>) {}
+//! Registry entries that do not fit the fixed / generic / spelling files:
+//! quire round trips (C12), helpers that only C16 names.
+
+use crate::gen::Kind;
+use crate::ops::{Op, OutKind};
+use crate::pt::{PT, QT};
+use softposit::{Q16E1, Q32E2, Q8E0};
+
+fn quire_ops<Q: QT>(ops: &mut Vec<Op>) {
+    let f = <Q::P as PT>::F;
+    let k = Kind::Pat(f);
+    ops.push(
+        Op::new(
+            format!("{}::from_posit.to_posit", Q::NAME),
+            &["C12"],
+            &[k],
+            OutKind::Pat(f),
+            |x, _, _| Q::i_from_posit(<Q::P as PT>::fb(x)).i_to_posit().tb(),
+        )
+        .fast(|x, _, _| (x, 255))
+        .slow(|x, _, _| Some(x)),
+    );
+    ops.push(
+        Op::new(
+            format!("{}::From<posit>.to_posit", Q::NAME),
+            &["C12"],
+            &[k],
+            OutKind::Pat(f),
+            |x, _, _| Q::from_trait(<Q::P as PT>::fb(x)).i_to_posit().tb(),
+        )
+        .fast(|x, _, _| (x, 255))
+        .slow(|x, _, _| Some(x))
+        .weight(0.5),
+    );
+    // the quire made from p holds exactly p: its image is p in fixed point
+    ops.push(
+        Op::new(
+            format!("{}::from_posit.image_digest", Q::NAME),
+            &["C12"],
+            &[k],
+            OutKind::Raw,
+            |x, _, _| {
+                let q = Q::i_from_posit(<Q::P as PT>::fb(x));
+                digest(&q.limbs_le(), q.i_is_zero(), q.i_is_nar())
+            },
+        )
+        .slow(move |x, _, _| {
+            let v = crate::val::Val::decode(f, x);
+            if v.is_nar() {
+                let mut l = vec![0u64; ((Q::TOTAL_BITS + 63) / 64) as usize];
+                let top = l.len() - 1;
+                l[top] = 1u64 << ((Q::TOTAL_BITS - 1) % 64);
+                return Some(digest(&l, false, true));
+            }
+            let l = v.to_fixed(Q::TOTAL_BITS, Q::FRAC_BITS).expect("every posit fits its quire");
+            Some(digest(&l, v.is_zero(), false))
+        })
+        .weight(0.5)
+        .note("digest of (bit image, is_zero, is_nar) against the exact fixed-point image"),
+    );
+}
+
+fn digest(l: &[u64], z: bool, n: bool) -> u64 {
+    let mut h = 0x9e37u64 ^ ((z as u64) << 1) ^ (n as u64);
+    for &w in l {
+        h = crate::rng::mix64(h ^ w);
+    }
+    h
+}
+
+pub fn register(ops: &mut Vec<Op>) {
+    quire_ops::<Q8E0>(ops);
+    quire_ops::<Q16E1>(ops);
+    quire_ops::<Q32E2>(ops);
+}
